@@ -826,6 +826,15 @@ def localize_ext(ext, child, base, v, depth=0, through_union=False):
         fc = ch.schema.get_field(k) if ch is not None and ch.schema is not None else None
         return localize_ext(fe.value, fc.value if fc is not None else None,
                             fb.value, x, depth + 1, through_union)
+    # The value was restricted to the shared fields: a frozen nested Dict of the
+    # extended spec need not accept its own restricted value any more. The
+    # component that the base field rejects under a frozen field is the place.
+    for k, x in v.items():
+      fe, fb = ext.schema.get_field(k), base.schema.get_field(k)
+      fc = ch.schema.get_field(k) if ch is not None and ch.schema is not None else None
+      if (fe is not None and fb is not None and fe.key == fb.key and fe.value.frozen
+          and fc is not None and fc.value.frozen and not S.accepts(fb.value, x)[0]):
+        return fe.value, fc.value, fb.value, x
   return ext, child, base, v
 
 
@@ -893,6 +902,12 @@ def extend_mechanism(ext, child, base, v, dependent=False):
   reason = S.why_rejected(lb, lv) or 'unexplained'
   if reason.endswith('.required'):
     return None       # omitted field that only the child gives a default: left open
+  if isinstance(lb, T.Union) and not isinstance(le, T.Union):
+    paired = union_counterpart(lb, lc if lc is not None else le)
+    if paired is not None and paired.frozen:
+      # The candidate extend() paired the child with is frozen (and took the
+      # child's values through the frozen short cut).
+      return 'frozen-candidate-of-base-union'
   if lb.frozen and lb is not base:
     # extend() tests `frozen` on the base it is given, not on the Union
     # candidate it then extends.
@@ -1177,7 +1192,8 @@ def envelope_law(ctx, rng, pool):
     if op == ENVELOPE_OPS[0] and not post_op_law(
         ctx, spec, snap, fmt, eq_before, 'apply', witness, recheck):
       return
-    ctx.label = f'apply:{op}'
+    # The operations are stimuli (user code / other specs working on a value
+    # they were handed); what they raise is not judged.
     try:
       if op == 'widened-spec-apply':
         if wide is None:
@@ -1192,9 +1208,8 @@ def envelope_law(ctx, rng, pool):
                    child_transform=rewriting_child_transform)
       else:
         mutate_plain(r)
-    except S.APPLY_ERRORS:
+    except Exception:  # pylint: disable=broad-except
       c['envelope_op_raised'] += 1
-    ctx.label = None
     c['envelope_ops'] += 1
     if not post_op_law(ctx, spec, snap, fmt, eq_before, op, witness, recheck):
       return
